@@ -337,7 +337,7 @@ func genC09(r *Rng, tier string, emit func(Case)) {
 				ops = append(ops, "h:"+hx(h))
 			case k == 4:
 				h := r.Bytes(32)
-				idx := uint32(r.Pick(0, 1, 255, 256, 0xffffffff, int(r.U64()&0xffff)))
+				idx := uint32(r.Pick(0, 1, 255, 256, 0xffffffff, 0x10000, 0x01000000, 0x01020304, 0x80000000, int(r.U64()&0xffff), int(r.U64()&0xffffffff), int(r.U64()&0xffffffff)))
 				buf := append(append([]byte{}, h...), 0, 0, 0, 0)
 				binary.LittleEndian.PutUint32(buf[32:], idx)
 				items = append(items, buf)
@@ -361,7 +361,7 @@ func genC09(r *Rng, tier string, emit func(Case)) {
 					ops = append(ops, "l")
 				}
 			default:
-				ops = append(ops, "p:"+hx(r.Bytes(32))+":"+itoa(r.Intn(3)))
+				ops = append(ops, "p:"+hx(r.Bytes(32))+":"+u64s(r.U64()&0xffffffff))
 			}
 		}
 		e("hist", "len"+itoa(len(unhx(fa[0]))), fa[0], fa[1], fa[2], fa[3], strings.Join(ops, ";"))
@@ -689,6 +689,17 @@ func genC11(r *Rng, tier string, emit func(Case)) {
 	for i := 0; i < big; i++ {
 		n := 66 + r.Intn(3000)
 		e("mb", "big", itoa(n), u64s(r.U64()&0xffff), bitsString(r, n, r.Intn(8)), "-")
+	}
+	// counts and subset sizes around byte/word boundaries of any counter an implementation might keep
+	for _, n := range []int{255, 256, 257, 300, 512, 513, 1024} {
+		for _, mode := range []int{1, 4} {
+			e("mb", "wrap", itoa(n), itoa(n), bitsString(r, n, mode), "-")
+		}
+		b := []byte(bitsString(r, n, 0))
+		for i := 0; i < 256 && i < n; i++ {
+			b[i] = '1'
+		}
+		e("mb", "wrap256", itoa(n), itoa(n), string(b), "-")
 	}
 	// duplicated transactions (equal siblings): fidelity only
 	for i := 0; i < 40; i++ {
